@@ -423,6 +423,130 @@ theorem c08_no_safe_state (sem : Sem σ δ) (s : RState σ δ) (e : Err) (dec : 
     (applyFault sem s e dec).st.env = s.env := by
   simp [applyFault, h]
 
+/-! ## The resource thread -/
+
+/-- **The resource thread (`run_resource_loop`) and the latch.**  Started on a runtime that is not
+faulted, one iteration either lets the thread go on — and then the runtime is again not faulted
+(the cycle succeeded, or the error / watchdog overrun was answered by a warm restart because the
+policy / action is `restart`) — or ends the thread in `Faulted` with `last_error = e`, and then
+the runtime is faulted with `e` latched.  So the thread never asks a faulted runtime for a cycle,
+and never runs a cycle after a fault without a restart in between. -/
+theorem c08_runner_iter (sem : Sem σ δ) (s : RState σ δ) (t : Int) (wdEnabled over : Bool)
+    (hs : s.faulted = false) :
+    ((runnerIter sem s t wdEnabled over).err = none → (runnerIter sem s t wdEnabled over).st.faulted = false) ∧
+    (∀ e, (runnerIter sem s t wdEnabled over).err = some e →
+      (runnerIter sem s t wdEnabled over).st.faulted = true ∧
+      (runnerIter sem s t wdEnabled over).st.lastFault = some e) := by
+  have hs0 : ({ s with now := t } : RState σ δ).faulted = false := hs
+  have hout := c08_cycle_outcome sem { s with now := t } hs0
+  simp only [runnerIter]
+  cases hr : (runPhases (cyclePhases sem) { s with now := t }).err with
+  | some e =>
+    simp only [hr] at hout
+    obtain ⟨h1, _, _, h4, h5⟩ := hout
+    simp only [h1]
+    split
+    · exact ⟨fun _ => by simp [step], fun e' h => by simp at h⟩
+    · refine ⟨fun h => by simp at h, fun e' h => ?_⟩
+      simp only [Option.some.injEq] at h
+      subst h
+      exact ⟨h4, h5⟩
+  | none =>
+    simp only [hr] at hout
+    obtain ⟨h1, _, h3, _⟩ := hout
+    simp only [h1]
+    split
+    · split
+      · exact ⟨fun _ => by simp [step], fun e' h => by simp at h⟩
+      · refine ⟨fun h => by simp at h, fun e' h => ?_⟩
+        simp only [Option.some.injEq] at h
+        subst h
+        have := c08_apply_fault_latches sem (executeCycle sem { s with now := t }).st .watchdogTimeout
+          (FaultDecision.fromWatchdog (executeCycle sem { s with now := t }).st.wdAction)
+        exact ⟨this.1, this.2.1⟩
+    · exact ⟨fun _ => h3, fun e' h => by simp at h⟩
+
+/-- The same over any number of iterations (induction): while the thread runs, the runtime is not
+faulted at the start of any iteration; when the thread ends in `Faulted`, the fault is latched. -/
+theorem c08_runner_loop (sem : Sem σ δ) (interval : Int) (wdEnabled over : Bool) (n : Nat)
+    (s : RState σ δ) (t : Int) (hs : s.faulted = false) :
+    ((runnerLoop sem interval wdEnabled over n s t).err = none →
+      (runnerLoop sem interval wdEnabled over n s t).st.faulted = false) ∧
+    (∀ e, (runnerLoop sem interval wdEnabled over n s t).err = some e →
+      (runnerLoop sem interval wdEnabled over n s t).st.faulted = true ∧
+      (runnerLoop sem interval wdEnabled over n s t).st.lastFault = some e) := by
+  induction n generalizing s t with
+  | zero => exact ⟨fun _ => hs, fun e h => by simp [runnerLoop] at h⟩
+  | succ n ih =>
+    have hi := c08_runner_iter sem s t wdEnabled over hs
+    simp only [runnerLoop]
+    cases hr : (runnerIter sem s t wdEnabled over).err with
+    | some e =>
+      simp only []
+      refine ⟨fun h => by simp [hr] at h, fun e' h => ?_⟩
+      exact hi.2 e' h
+    | none =>
+      simp only []
+      exact ih _ _ (hi.1 hr)
+
+/-- **Safe image when the thread ends.**  If the iteration ends the thread because the cycle
+failed and the fault policy is `safe_halt`, or because the watchdog tripped and its action is
+`halt` or `safe_halt`, the safe image was forced and delivered to every driver before the thread
+reported `Faulted`. -/
+theorem c08_runner_safe (sem : Sem σ δ) (s : RState σ δ) (t : Int) (wdEnabled over : Bool)
+    (hs : s.faulted = false) (e : Err) (he : (runnerIter sem s t wdEnabled over).err = some e) :
+    (∀ e', (executeCycle sem { s with now := t }).err = some e' → s.policy = .safeHalt →
+      SafeDelivered sem.nDrivers s.safe (runnerIter sem s t wdEnabled over) e) ∧
+    ((executeCycle sem { s with now := t }).err = none → s.wdAction ≠ .restart →
+      SafeDelivered sem.nDrivers s.safe (runnerIter sem s t wdEnabled over) .watchdogTimeout) := by
+  have hs0 : ({ s with now := t } : RState σ δ).faulted = false := hs
+  constructor
+  · intro e' hc hp
+    have hsd := c08_cycle_safe_halt sem { s with now := t } hs0 hp e' hc
+    have hne : ¬ (executeCycle sem { s with now := t }).st.policy = .restart := by
+      have hctl := runPhases_sameCtl (cyclePhases sem) (cyclePhases_sameCtl sem) { s with now := t }
+      have hout := c08_cycle_outcome sem { s with now := t } hs0
+      cases hr : (runPhases (cyclePhases sem) { s with now := t }).err with
+      | none => simp only [hr] at hout; rw [hout.1] at hc; cases hc
+      | some e2 =>
+        simp only [hr] at hout
+        rw [hout.2.1]
+        simp only [recordFault]
+        rw [(applyFault_ctl sem _ e2 _).1, hctl.policy]
+        simp [hp]
+    simp only [runnerIter, hc, hne, if_false] at he ⊢
+    simp only [Option.some.injEq] at he
+    subst he
+    exact hsd
+  · intro hc hw
+    have hout := c08_cycle_outcome sem { s with now := t } hs0
+    have hctl := runPhases_sameCtl (cyclePhases sem) (cyclePhases_sameCtl sem) { s with now := t }
+    cases hr : (runPhases (cyclePhases sem) { s with now := t }).err with
+    | some e2 => simp only [hr] at hout; rw [hout.1] at hc; cases hc
+    | none =>
+      simp only [hr] at hout
+      have hwd : (executeCycle sem { s with now := t }).st.wdAction = s.wdAction := by
+        rw [hout.2.1]; exact hctl.wdAction
+      have hsafe : (executeCycle sem { s with now := t }).st.safe = s.safe := by
+        rw [hout.2.1]; exact hctl.safe
+      simp only [runnerIter, hc] at he ⊢
+      by_cases hwo : (wdEnabled && over) = true
+      · have hnr : ¬ (executeCycle sem { s with now := t }).st.wdAction = .restart := by rw [hwd]; exact hw
+        simp only [hwo, if_true, hnr, if_false] at he ⊢
+        have hdec : (FaultDecision.fromWatchdog (executeCycle sem { s with now := t }).st.wdAction).applySafeState = true := by
+          rw [hwd]; cases hh : s.wdAction <;> simp_all [FaultDecision.fromWatchdog]
+        have hsd := c08_safe_image sem (executeCycle sem { s with now := t }).st .watchdogTimeout _ hdec
+        rw [hsafe] at hsd
+        obtain ⟨a1, _, ⟨pre, a3⟩, a4, a5⟩ := hsd
+        refine ⟨a1, ?_, ⟨(executeCycle sem { s with now := t }).evs ++ pre, ?_⟩, a4, a5⟩
+        · intro d hd
+          simp only []
+          rw [a3, ← List.append_assoc]
+          exact lastWrite_tail d sem.nDrivers hd _ _ _
+        · simp only []
+          rw [a3]; simp
+      · simp [hwo] at he
+
 /-! ## Non-vacuity -/
 
 /-- A toy application: two drivers (driver 0 fails every `write_outputs` from its third one on;
@@ -469,5 +593,22 @@ example : (∀ op ∈ [Op.cycle, .advance 5, .watchdog, .cycle, .setPolicy .halt
 
 example : cyclePhases toy = [phaseRead toy, phaseDebug, phaseForce, phaseLatch toy] ++ phaseTasks toy ::
     [phasePublish toy, phaseForce, phaseWrite toy, phasePersist toy] := rfl
+
+/-- The resource thread on the toy application: it runs two cycles, ends in `Faulted` with
+`DivisionByZero` in the third although five were allowed, and the safe value is in the image. -/
+example :
+    let r := runnerLoop toy 10 false false 5 toyState 0
+    r.err = some .divisionByZero ∧ r.st.faulted = true ∧ r.st.cycles = 2 ∧
+    r.st.io.read toyAddr = .ok (.byte 90) := by
+  intro r
+  exact ⟨rfl, rfl, rfl, rfl⟩
+
+/-- … and with a watchdog that trips on every cycle (action `safe_halt`) the first iteration ends
+the thread with `WatchdogTimeout` after a successful cycle. -/
+example :
+    (runnerIter toy toyState 0 true true).err = some .watchdogTimeout ∧
+    (executeCycle toy { toyState with now := 0 }).err = none ∧ toyState.wdAction ≠ .restart ∧
+    toyState.faulted = false :=
+  ⟨rfl, rfl, by decide, rfl⟩
 
 end TrustVerif.C08
